@@ -10,6 +10,7 @@ import (
 
 	"github.com/herohde/morlock/pkg/board"
 	"github.com/herohde/morlock/pkg/engine"
+	"github.com/herohde/morlock/pkg/eval"
 	"github.com/herohde/morlock/pkg/search"
 	"github.com/herohde/morlock/pkg/search/searchctl"
 	"github.com/seekerror/stdlib/pkg/lang"
@@ -40,6 +41,18 @@ func (a searchResult) diff(b searchResult, nodes bool) string {
 	return ""
 }
 
+// scoreStr prints a score canonically: negative zero is zero.
+func scoreStr(s eval.Score) string {
+	if s.Type == eval.Heuristic {
+		s.Pawns += 0 // -0 + 0 = +0
+		if s.Pawns == 0 {
+			s.Pawns = 0
+		}
+		return fmt.Sprintf("%g", float32(s.Pawns))
+	}
+	return s.String()
+}
+
 func directSearch(s search.Search, zt *board.ZobristTable, h gen.Hist, depth int) (searchResult, error) {
 	b, err := adapt.Board(zt, h.Start)
 	if err != nil {
@@ -54,7 +67,7 @@ func directSearch(s search.Search, zt *board.ZobristTable, h gen.Hist, depth int
 	if err != nil {
 		return searchResult{}, err
 	}
-	return searchResult{score: sc.String(), pv: board.PrintMoves(pv), nodes: n}, nil
+	return searchResult{score: scoreStr(sc), pv: board.PrintMoves(pv), nodes: n}, nil
 }
 
 // analyze drives an engine: set up the game, analyse to the depth limit, return the PV stream.
@@ -127,7 +140,7 @@ loop:
 			if !ok {
 				break loop
 			}
-			stream = append(stream, searchResult{score: fmt.Sprintf("d%d:%v", pv.Depth, pv.Score), pv: board.PrintMoves(pv.Moves), nodes: pv.Nodes})
+			stream = append(stream, searchResult{score: fmt.Sprintf("d%d:%s", pv.Depth, scoreStr(pv.Score)), pv: board.PrintMoves(pv.Moves), nodes: pv.Nodes})
 		case <-timeout:
 			e.Halt(ctx)
 			return nil, "", fmt.Errorf("watchdog")
